@@ -92,7 +92,7 @@ def params_of(cls_name):
 
 
 KINDS = {"quantity": ["wrong_dimension", "negative", "raw_number", "string", "bare_quantity", "hourly_series",
-                      "not_allowed_for_server_type", "value_of_another_object"],
+                      "not_allowed_for_server_type", "value_of_another_object", "computed_value_without_label"],
          "list": ["wrong_class_element", "wrong_class_element_2", "string_element"],
          "choice": ["outside_allowed_values", "incompatible_with_fixed_count"],
          "hourly": ["scalar_instead", "raw_number", "other_length"], "link": ["wrong_class_link"],
@@ -120,6 +120,10 @@ def grid(spec):
                         continue
                     if kind == "not_allowed_for_server_type" and not (
                             p == "fixed_nb_of_instances" and e["cls"] in S.SERVER_CLS and site != "construction"):
+                        continue
+                    if kind == "computed_value_without_label" and (site == "construction" or p not in (
+                            "power", "lifespan", "carbon_footprint_fabrication", "data_transferred",
+                            "average_carbon_intensity", "user_time_spent")):
                         continue
                     if kind == "value_of_another_object" and (site == "construction" or p not in (
                             "power", "lifespan", "carbon_footprint_fabrication", "data_transferred",
@@ -165,6 +169,9 @@ def invalid_value(cell, objs, spec):
             return 3 * u(unit)
         if kind == "hourly_series":
             return SourceHourlyValues(create_hourly_usage_df_from_list([1.0, 2.0], datetime(2025, 1, 1), u(unit)))
+        if kind == "computed_value_without_label":
+            # obj.power = obj.power * 2 without giving the result a label: refused ("should always have a label")
+            return getattr(obj, p) * SourceValue(2 * u.dimensionless)
         if kind == "value_of_another_object":
             # obj.power = other.power: the very value object another object holds (a refusal must leave both alone)
             for n2, o2 in sorted(objs.items()):
